@@ -11,6 +11,7 @@ import (
 	"go/ast"
 	"net"
 	"net/textproto"
+	"strconv"
 	"strings"
 	"testing"
 	"time"
@@ -313,6 +314,7 @@ func TestVerifC14Gate(t *testing.T) {
 			scns = append(scns, c14GenGate(rng.Fork(), rng.Chance(70), rng.Chance(70)))
 		}
 	}
+	defer func(old string) { testPort = old }(testPort)
 	for _, required := range []bool{true, false} {
 		for _, login := range []bool{true, false} {
 			var mine []*c14GateScn
@@ -329,6 +331,12 @@ func TestVerifC14Gate(t *testing.T) {
 				mod = "submission"
 			}
 			tgt := &testutils.Target{}
+			// the package's TestMain picks one random port for all tests; on a busy machine it may be taken (by another
+			// process' listener or outgoing connection): ask the kernel for a port that is free right now
+			if l, err := net.Listen("tcp", "127.0.0.1:0"); err == nil {
+				testPort = strconv.Itoa(l.Addr().(*net.TCPAddr).Port)
+				l.Close()
+			}
 			endp := testEndpoint(t, mod, vauth.FixedAuth{User: c14User, Pass: c14Pass}, tgt, nil, []config.Node{})
 			endp.saslAuth.EnableLogin = login
 			for _, s := range mine {
